@@ -41,7 +41,7 @@ META = {
                 text="Real tcp Client/ClientTls (built with application-supplied empty rxbs/txbs buffers, which the harness fills and observes) and Server/ServerTls exchange scripted payloads over FakeNet; every execution with up to 3 (quick) / 5 (thorough) non-default kernel answers is run; after every service round received bytes must be a prefix of transmitted bytes in both directions, wire logs must equal the bytes the kernel accepted/delivered, and healthy servicing must deliver everything.",
                 note="Trusted: FakeNet (its deterministic behaviour is compared call by call with real loopback sockets by vf/env/fakenet_conf.py, reported in evidence); TLS is a pass-through raising OpenSSL's want-read/want-write."),
     "C10": dict(cat="fault_enumeration", eng="E1 over FakeNet", ref="3 (TCP group)",
-                tech="exhaustive single (quick) / double (thorough) fault placement: every connection-level errno, TLS EOF, handshake abort at every send/recv/handshake call, peer close/RST/half-close at every step boundary",
+                tech="exhaustive single (quick) / up to triple (thorough) fault placement: every connection-level errno, TLS EOF, handshake abort at every send/recv/handshake call, peer close/RST/half-close at every step boundary",
                 text="Server side with victim + sibling connection, client side against a scripted peer (which may also die right after its answer, with the answer still unread), plain and TLS, with and without a WireLog attached: service() must not raise, the victim must end cut off / aborted / removed-and-closed, the sibling's echo must complete.",
                 note="'marked' accepts removal with the socket closed. Generic TLS protocol errors (certificate failure) are outside the property."),
     "C11": dict(cat="model_checking", eng="E2 BFS over FakeNet", ref="3 (TCP group)",
